@@ -4,3 +4,4 @@ import WhatIs.Props.C15
 import WhatIs.Props.C16
 import WhatIs.Props.C17
 import WhatIs.Props.C20
+import WhatIs.Props.C07
